@@ -39,6 +39,10 @@ const maxExpandedPatterns = 1000
 type PathPattern struct {
 	original   string
 	renderTree renderNode
+	// variants holds the rendered string of every expanded variant of the
+	// pattern, in rendering order. It is what Match evaluates, so that the
+	// pattern matches a path exactly when one of its variants does.
+	variants []string
 }
 
 // ParsePathPattern validates the given pattern and parses it into a PathPattern
@@ -66,14 +70,32 @@ func (p *PathPattern) parse(pattern string) error {
 	if count := tree.NumVariants(); count > maxExpandedPatterns {
 		return fmt.Errorf("%s: exceeded maximum number of expanded path patterns (%d): %d", prefix, maxExpandedPatterns, count)
 	}
+	variants := make([]string, 0, tree.NumVariants())
+	renderAllVariants(tree, func(index int, variant PatternVariant) {
+		variants = append(variants, variant.String())
+	})
 	p.original = pattern
 	p.renderTree = tree
+	p.variants = variants
 	return nil
 }
 
 // Match returns true if the path pattern matches the given path.
+//
+// A path pattern matches a path if and only if at least one of its expanded
+// variants matches it. The variants are matched rather than the original
+// pattern string, since the glob library does not treat the original string
+// (with its groups, repeated separators and unnormalized wildcards) the same
+// way as the rendered variants which are used to detect rule conflicts and to
+// compute precedence.
 func (p *PathPattern) Match(path string) (bool, error) {
-	return PathPatternMatches(p.original, path)
+	for _, variant := range p.variants {
+		matched, err := PathPatternMatches(variant, path)
+		if err != nil || matched {
+			return matched, err
+		}
+	}
+	return false, nil
 }
 
 // MarshalJSON implements json.Marshaller for PathPattern.
